@@ -9,9 +9,10 @@ end, and a Go `swap(kvs[i], kvs[j-1])` with `j-1` the last index of the middle r
 element by element (it is compared with the real slice on every `newset` line).
 
 Floats travel as IEEE-754 bit patterns (`UInt64`); there is no `Float` anywhere.
-External: `slices.SortStableFunc` is modelled by its contract (a stable sort by key; the stable
-sort w.r.t. a total preorder is a unique function, here written as insertion sort so that the
-kernel can evaluate it), `sort.Search` is modelled as written in the Go standard library.
+External: `slices.SortStableFunc` is modelled as written in the Go standard library for its
+insertion-sort phase and block structure (`goSortStable`; only `symMergeCmpFunc` is a contract:
+stable merge); `sortStable` is the reference stable sort (Props: `stable_sort_unique`,
+`goSortStable_eq`). `sort.Search` is modelled as written in the Go standard library.
 -/
 import Otel.Base.Utf8
 namespace Otel
@@ -82,16 +83,140 @@ def valHasNaN : Value → Bool
   | _ => false
 def F9_applies (s : List KV) : Bool := s.any (fun kv => valHasNaN kv.val)
 
+/-! ### `Distinct`, `computeDistinct`, nil and zero-value Sets (set.go) -/
+
+/-- a `[n]KeyValue` array value behind `Distinct.iface`; `n` is part of the dynamic type -/
+structure ArrVal where
+  n : Nat
+  elems : List KV
+deriving DecidableEq, Repr
+
+/-- `Distinct`: `none` = the nil interface (zero value of `Distinct` / `Set`) -/
+abbrev Distinct := Option ArrVal
+
+/-- the conversion `[n]KeyValue(kvs)` (the first `n` elements; the `case n:` guarantees `len(kvs) == n`) -/
+def arrOf (n : Nat) (kvs : List KV) : ArrVal := ⟨n, kvs.take n⟩
+
+/-- `computeDistinctFixed`: the `switch len(kvs)` with cases 1…10, `nil` otherwise -/
+def computeDistinctFixed (kvs : List KV) : Option ArrVal :=
+  match kvs.length with
+  | 1 => some (arrOf 1 kvs) | 2 => some (arrOf 2 kvs) | 3 => some (arrOf 3 kvs) | 4 => some (arrOf 4 kvs)
+  | 5 => some (arrOf 5 kvs) | 6 => some (arrOf 6 kvs) | 7 => some (arrOf 7 kvs) | 8 => some (arrOf 8 kvs)
+  | 9 => some (arrOf 9 kvs) | 10 => some (arrOf 10 kvs)
+  | _ => none
+
+/-- `computeDistinctReflect`: `reflect.ArrayOf(len(kvs), keyValueType)`, filled index by index -/
+def computeDistinctReflect (kvs : List KV) : ArrVal :=
+  ⟨kvs.length, (List.range kvs.length).filterMap (fun i => kvs[i]?)⟩
+
+def computeDistinct (kvs : List KV) : Distinct :=
+  match computeDistinctFixed kvs with
+  | some a => some a
+  | none => some (computeDistinctReflect kvs)
+
+/-- `emptySet.equivalent` = `Distinct{iface: [0]KeyValue{}}` -/
+def emptyDistinct : Distinct := some ⟨0, []⟩
+
+/-- a `*Set`: `none` = nil pointer, `some d` = `&Set{equivalent: d}` (`some none` = the zero `Set{}`) -/
+abbrev SetP := Option Distinct
+
+/-- `(*Set).Equivalent()` -/
+def setEquivalent : SetP → Distinct
+  | none => emptyDistinct
+  | some none => emptyDistinct
+  | some (some a) => some a
+
+/-- `(*Set).Len()` -/
+def setLen : SetP → Nat
+  | none => 0
+  | some none => 0
+  | some (some a) => a.n
+
+/-- `(*Set).Get(idx)` -/
+def setGet (l : SetP) (idx : Int) : Option KV :=
+  match l with
+  | none => none
+  | some none => none
+  | some (some a) => if 0 ≤ idx ∧ idx < a.n then a.elems[idx.toNat]? else none
+
+/-- `(*Set).ToSlice()` (through `Iter`) -/
+def setToSlice (l : SetP) : List KV := (List.range (setLen l)).filterMap (fun i => setGet l (Int.ofNat i))
+
+/-- Go `==` on two `Distinct` values: interface comparison (nil, dynamic type `[n]KeyValue`, then elements) -/
+def distinctEq : Distinct → Distinct → Bool
+  | none, none => true
+  | some a, some b => a.n == b.n && relList goEq a.elems b.elems
+  | _, _ => false
+
+/-- `(*Set).Equals(o)` -/
+def setEquals (l o : SetP) : Bool := distinctEq (setEquivalent l) (setEquivalent o)
+
+/-- the representation's normal form of a value: `-0` and `+0` inside a FLOAT64SLICE are the same array element under `==` -/
+def normF (b : UInt64) : UInt64 := if isZero b then 0 else b
+def normVal : Value → Value
+  | .floats l => .floats (l.map normF)
+  | v => v
+def normKV (kv : KV) : KV := ⟨kv.key, normVal kv.val⟩
+
 /-! ### `slices.SortStableFunc(kvs, cmp.Compare(a.Key, b.Key))` -/
 
 def insertKV (x : KV) : List KV → List KV
   | [] => [x]
   | y :: ys => if bLt y.key x.key then y :: insertKV x ys else x :: y :: ys
 
-/-- stable sort by key (contract of `slices.SortStableFunc`) -/
+/-- reference: THE stable sort by key (unique: `stable_sort_unique`) -/
 def sortStable : List KV → List KV
   | [] => []
   | x :: xs => insertKV x (sortStable xs)
+
+/-! ### `slices.SortStableFunc` as written in the Go standard library (slices/zsortanyfunc.go)
+
+`stableCmpFunc`: insertion-sort blocks of 20 elements, then rounds of `symMergeCmpFunc` on adjacent
+runs with doubling block size. The insertion sort is modelled swap by swap; `symMergeCmpFunc`
+(rotations + binary searches) by its contract: the stable merge of two adjacent sorted runs.
+For `len(kvs) <= 20` (almost every attribute set) no merge happens. -/
+
+/-- inner loop of `insertionSortCmpFunc`: `for j := i; j > a && cmp(data[j], data[j-1]) < 0; j-- { swap(j, j-1) }`.
+`revPre` = `data[a:i]` reversed (nearest element first), `x = data[i]`; result: `data[a:i+1]` reversed. -/
+def sinkLeft (x : KV) : List KV → List KV
+  | [] => [x]
+  | y :: ys => if bLt x.key y.key then y :: sinkLeft x ys else x :: y :: ys
+
+/-- `insertionSortCmpFunc(data, a, b)` on the segment `data[a:b]` -/
+def goInsertionSort (seg : List KV) : List KV :=
+  (seg.foldl (fun revPre x => sinkLeft x revPre) []).reverse
+
+/-- the segments `[0,bs) [bs,2bs) … [a,n)` of the first loop of `stableCmpFunc` (an empty last segment is dropped) -/
+def sortBlocks (bs : Nat) : Nat → List KV → List (List KV)
+  | 0, _ => []
+  | f + 1, l => if l.length = 0 then [] else l.take bs :: sortBlocks bs f (l.drop bs)
+
+/-- contract of `symMergeCmpFunc(data, a, m, b)`: stable merge of the sorted runs `data[a:m]`, `data[m:b]`
+(on equal keys the left run's elements come first) -/
+def mergeRunsAux : Nat → List KV → List KV → List KV
+  | 0, a, b => a ++ b
+  | _ + 1, [], b => b
+  | _ + 1, a, [] => a
+  | f + 1, x :: a, y :: b =>
+    if bLt y.key x.key then y :: mergeRunsAux f (x :: a) b else x :: mergeRunsAux f a (y :: b)
+
+def mergeRuns (a b : List KV) : List KV := mergeRunsAux (a.length + b.length) a b
+
+/-- one round of the second loop: merge runs pairwise, a last unpaired run stays -/
+def mergePairs : List (List KV) → List (List KV)
+  | r1 :: r2 :: rest => mergeRuns r1 r2 :: mergePairs rest
+  | rs => rs
+
+/-- `for blockSize < n { …; blockSize *= 2 }`: rounds until one run is left -/
+def mergeRounds : Nat → List (List KV) → List KV
+  | 0, rs => rs.flatten
+  | _ + 1, [] => []
+  | _ + 1, [r] => r
+  | f + 1, rs => mergeRounds f (mergePairs rs)
+
+/-- `slices.SortStableFunc(kvs, func(a, b) int { return cmp.Compare(a.Key, b.Key) })` -/
+def goSortStable (l : List KV) : List KV :=
+  mergeRounds l.length ((sortBlocks 20 l.length l).map goInsertionSort)
 
 /-! ### The in-place loops -/
 
@@ -137,7 +262,7 @@ deriving DecidableEq, Repr
 def newSetWithFiltered (kvs : List KV) (filter : Option (KV → Bool)) : NewSetResult :=
   if kvs.length = 0 then ⟨[], [], kvs⟩
   else
-    let dd := dedup (sortStable kvs)   -- (kvs[:position], kvs[position:])
+    let dd := dedup (goSortStable kvs)   -- (kvs[:position], kvs[position:])
     match filter with
     | none => ⟨dd.2, [], dd.1 ++ dd.2⟩
     | some keep =>
@@ -146,6 +271,14 @@ def newSetWithFiltered (kvs : List KV) (filter : Option (KV → Bool)) : NewSetR
       else ⟨ft.1 ++ ft.2, [], dd.1 ++ (ft.1 ++ ft.2)⟩
 
 def newSet (kvs : List KV) : List KV := (newSetWithFiltered kvs none).set
+
+/-- `NewAllowKeysFilter(keys...)` (filter.go): no keys = deny all; otherwise membership in the key map -/
+def allowKeysFilter (keys : List Bytes) : KV → Bool :=
+  if keys.length ≤ 0 then fun _ => false else fun kv => keys.contains kv.key
+
+/-- `NewDenyKeysFilter(keys...)`: no keys = allow all; otherwise non-membership -/
+def denyKeysFilter (keys : List Bytes) : KV → Bool :=
+  if keys.length ≤ 0 then fun _ => true else fun kv => !keys.contains kv.key
 
 /-- split at the last element that is filtered out: `first` of `Set.Filter` -/
 def splitLastDropped (re : KV → Bool) : List KV → Option (List KV × KV × List KV)
@@ -202,6 +335,81 @@ def mergeAux : Nat → List KV → List KV → List KV
 
 /-- the attributes a `NewMergeIterator(a, b)` yields -/
 def mergeIter (a b : List KV) : List KV := mergeAux (a.length + b.length + 1) a b
+
+/-! ### `Iterator`, `oneIterator`, `MergeIterator` as the state machines of iterator.go -/
+
+/-- `KeyValue{}`: what `Get` returns out of range -/
+def zeroKV : KV := ⟨[], .invalid⟩
+
+/-- `Iterator{storage, idx}`; `storage` = the contents of the Set it points to -/
+structure Iter where
+  storage : List KV
+  idx : Int := -1
+deriving DecidableEq, Repr
+
+/-- `Next`: `i.idx++; return i.idx < i.Len()` -/
+def Iter.next (i : Iter) : Iter × Bool :=
+  ({ i with idx := i.idx + 1 }, decide (i.idx + 1 < i.storage.length))
+
+/-- `Attribute` = `storage.Get(idx)` (the zero KeyValue out of range) -/
+def Iter.attribute (i : Iter) : KV :=
+  if 0 ≤ i.idx ∧ i.idx < i.storage.length then (i.storage[i.idx.toNat]?).getD zeroKV else zeroKV
+
+/-- `for i.Next() { slice = append(slice, i.Attribute()) }` -/
+def Iter.drain : Nat → Iter → Iter × List KV
+  | 0, i => (i, [])
+  | f + 1, i =>
+    let n := i.next
+    if n.2 then
+      let r := Iter.drain f n.1
+      (r.1, n.1.attribute :: r.2)
+    else (n.1, [])
+
+/-- `ToSlice`: nothing (and the position untouched) for an empty Set; otherwise rewind and run to the end -/
+def Iter.toSlice (i : Iter) : Iter × List KV :=
+  if i.storage.length = 0 then (i, []) else Iter.drain (i.storage.length + 1) { i with idx := -1 }
+
+structure OneIter where
+  iter : Iter
+  done : Bool := false
+  attr : KV := zeroKV
+deriving DecidableEq, Repr
+
+/-- `advance`: `if oi.done = !oi.iter.Next(); !oi.done { oi.attr = oi.iter.Attribute() }` -/
+def OneIter.advance (oi : OneIter) : OneIter :=
+  let n := oi.iter.next
+  if n.2 then { iter := n.1, done := false, attr := n.1.attribute }
+  else { oi with iter := n.1, done := true }
+
+/-- `makeOne(set.Iter())` -/
+def makeOne (s : List KV) : OneIter := OneIter.advance { iter := { storage := s } }
+
+structure MergeIt where
+  one : OneIter
+  two : OneIter
+  current : KV := zeroKV
+deriving DecidableEq, Repr
+
+/-- `MergeIterator.Next` -/
+def MergeIt.next (m : MergeIt) : MergeIt × Bool :=
+  if m.one.done && m.two.done then (m, false)
+  else if m.one.done then ({ m with current := m.two.attr, two := m.two.advance }, true)
+  else if m.two.done then ({ m with current := m.one.attr, one := m.one.advance }, true)
+  else if m.one.attr.key == m.two.attr.key then
+    ({ current := m.one.attr, one := m.one.advance, two := m.two.advance }, true)
+  else if bLt m.one.attr.key m.two.attr.key then ({ m with current := m.one.attr, one := m.one.advance }, true)
+  else ({ m with current := m.two.attr, two := m.two.advance }, true)
+
+/-- `for it.Next() { got = append(got, it.Attribute()) }` -/
+def MergeIt.drain : Nat → MergeIt → List KV
+  | 0, _ => []
+  | f + 1, m =>
+    let n := m.next
+    if n.2 then n.1.current :: MergeIt.drain f n.1 else []
+
+/-- what iterating `NewMergeIterator(a, b)` yields, step by step -/
+def mergeIterSM (a b : List KV) : List KV :=
+  MergeIt.drain (a.length + b.length + 1) { one := makeOne a, two := makeOne b }
 
 /-! ### default encoder -/
 
